@@ -140,6 +140,7 @@ func runE2E(r *Report, known []Finding, sp e2eSpec) {
 	t := r.Tie("coregex API == regexp API on generated (pattern, haystack)")
 	t.Cases = r.Evaluations * len(sp.obs)
 	reported := map[string]bool{}
+	shrunk := 0
 	for _, d := range dis {
 		t.Disagreements++
 		fam := d.api
@@ -173,9 +174,23 @@ func runE2E(r *Report, known []Finding, sp e2eSpec) {
 		if len(hh) > 120 {
 			hh = hh[:120]
 		}
-		r.Violate(fmt.Sprintf("%s of %q on %q [%s]: coregex=%.200s regexp=%.200s", d.api, d.p, hh, d.strat, d.got, d.want),
-			map[string]any{"pattern": d.p, "haystack_hex": hexOf(d.h), "api": d.api, "coregex": d.got, "regexp": d.want, "strategy": d.strat, "longest": sp.longest, "attrs": attrs,
-				"learn_signature": learnSignature(attrs)}, false)
+		rep := map[string]any{"pattern": d.p, "haystack_hex": hexOf(d.h), "api": d.api, "coregex": d.got, "regexp": d.want, "strategy": d.strat, "longest": sp.longest, "attrs": attrs,
+			"learn_signature": learnSignature(attrs)}
+		what := fmt.Sprintf("%s of %q on %q [%s]: coregex=%.200s regexp=%.200s", d.api, d.p, hh, d.strat, d.got, d.want)
+		if shrunk < 25 {
+			// a locally minimal witness of the same disagreement (the classification above uses the case as generated)
+			shrunk++
+			for _, o := range sp.obs {
+				if o.API == d.api {
+					sp2, sh2, w2, g2 := shrinkE2E(d.p, d.h, o, sp.longest, sp.posix, 400)
+					if w2 != "" && (len(sp2) < len(d.p) || len(sh2) < len(d.h)) {
+						rep["shrunk"] = map[string]string{"pattern": sp2, "haystack_hex": hexOf(sh2), "coregex": g2, "regexp": w2, "strategy": strategyOf(sp2)}
+						what += fmt.Sprintf("; shrunk: %q on %q [%s]: coregex=%.80s regexp=%.80s", sp2, sh2, strategyOf(sp2), g2, w2)
+					}
+				}
+			}
+		}
+		r.Violate(what, rep, false)
 	}
 	if len(dis) == 0 || true {
 		r.Sample(map[string]any{"apis": func() []string {
